@@ -4,7 +4,7 @@ import json
 from props import enginecore
 
 MODULE = "Audit"
-META = {"spec": ["Audit", "EngineCore"]}
+META = {"spec": ["Audit", "EngineCore", "SystemLifecycle"]}
 ASSUMPTIONS = [
     "client order ids are not reused while tracked (a duplicate id makes the engine overwrite a confirmed order with an in-flight marker, which no audit record carries)",
     "order reports carry the request's own side/price/quantity (as the execution manager produces them)",
@@ -53,6 +53,14 @@ def check(ctx):
     ctx.tlc_mc("Audit", "MC_Audit.cfg" if ctx.quick else "MC_Audit_thorough.cfg", timeout=1200)
     info = run_audit(ctx, ctx.seed, 72 if ctx.quick else 720, 40 if ctx.quick else 70, "audit")
     ctx.sample({"kind": "recorded audit/replica run (harness c10 record)", "summary": info})
+    # the System lifecycle (spec/SystemLifecycle.tla): take_audit is Some exactly once iff auditing is enabled, its snapshot
+    # precedes the first event, the records it delivers are gap-free and end with the Shutdown record, a dropped receiver does
+    # not stop the engine (signatures "lifecycle:audit_..." / "lifecycle:final_record" / "lifecycle:after_shutdown")
+    from props import lifecycle
+    n_before = len(ctx.violations)
+    lifecycle.run(ctx, lifecycle.C10_TAGS)
+    if len(ctx.violations) > n_before:     # report it now: a tool error in a later stage must not hide this verdict
+        return ctx.finish()
     # sequence numbering of process_with_audit on the EngineCore traces (tag tick_seq only)
     p_b, scn_b = ctx.tlc_gen("Gen_EngineCore", "Gen_EngineCore.cfg", "behaviours.ndjson", simulate=(300 if ctx.quick else 3000, 40), timeout=900)
     ctx.sample({"kind": "TLC simulated EngineCore behaviour", "scenario": scn_b[0]})
@@ -67,6 +75,9 @@ def check(ctx):
 
 
 def replay(ctx, rp):
+    if rp.get("kind") == "lifecycle":
+        from props import lifecycle
+        return lifecycle.replay(ctx, rp, lifecycle.C10_TAGS)
     if "scenario" in rp:
         return enginecore.replay(ctx, rp)
     ctx.build("c10")
